@@ -187,8 +187,8 @@ def _codec(rep, prog):
         c = astu.strip_casts(upd[0]['c'])
         asg = [n for n in astu.walk(upd[0]['t']) if n['k'] == 'Bin' and n['op'] == '=']
         names = [astu.src(a['a']) for a in asg]
-        okup = c['k'] == 'Bin' and c['op'] == '>' and astu.src(c['b']) == 'cur9' and names == ['cur9', 'bias9'] and \
-            astu.src(asg[0]['b']) == astu.src(c['a'])
+        okup = c['k'] == 'Bin' and c['op'] == '>' and astu.src(c['b']) == 'cur9' and names[:1] == ['cur9'] and \
+            names.count('cur9') == 1 and astu.src(asg[0]['b']) == astu.src(c['a'])
         lv = [v for n in astu.walk(caret_arm) if n['k'] == 'Decl' for v in n['vars'] if v['name'] == astu.src(c['a'])]
         okup = okup and len(lv) == 1 and astu.src(lv[0]['init']).replace('std::', '').startswith('atoi(') and \
             any(cc['callee']['qn'].endswith('::substr') and astu.num_value(astu.strip_casts(cc['args'][0])) == 1
@@ -235,8 +235,8 @@ def _codec(rep, prog):
     db = [n for n in astu.walk(dec['body']) if n['k'] == 'Bin' and n['op'] == '=' and astu.src(n['a']) == 'bias9']
     try:
         okdb = len(db) == 1 and cpp_poly(db[0]['b'], {}) == want_bias
-    except AnalysisBroken:
-        okdb = False
+    except AnalysisBroken as ex:
+        raise AnalysisBroken('decoder: the bias formula is outside the algebra this rule can normalise (%s): cannot decide' % ex)
     rep.add('CODEC', 'bias', where(dec, db[0].get('l') if db else None), 'both sides use bias9 = 1 - 10^-cur9, recomputed right after cur9 '
             'is raised', bool(okb) and okdb)
     # value formula: inverse of each other
@@ -253,7 +253,7 @@ def _codec(rep, prog):
             okinv = back == Poly.sym('d') and 'd' in d.symbols()
             why = None if okinv else 'decode(d) = %r; encode(decode(d)) = %r' % (d, back)
         except (AnalysisBroken, KeyError) as ex:
-            why = str(ex)
+            raise AnalysisBroken('codec: a value formula is outside the algebra this rule can normalise (%s): cannot decide' % ex)
     else:
         why = '%d decoder / %d encoder value formulas' % (len(dv), len(ev))
     rep.add('CODEC', 'inverse', where(dec, dv[0].get('l') if dv else None), 'encode(decode(d)) = d at every level n: cprob = bias9 + d 10^-(n+1) '
